@@ -25,3 +25,49 @@ Print Assumptions C06_shift_guard_64.
 Theorem C06_offset_is_value_minus_promise : forall v p, offset_value v (Some p) = (v - p)%N /\ offset_value v None = v.
 Proof. intros; split; reflexivity. Qed.
 Print Assumptions C06_offset_is_value_minus_promise.
+
+(** THE PROPERTY AT THE TOP OF THE EXECUTED MODEL.  [prove_top] (Model/Prover.v) is prove_with_rng as a whole: the witness
+    guard in front of the proof computation.  It returns a proof exactly when the guard holds — and the guard is the witness
+    relation (C06_witness_valid_iff) — ... *)
+From BP Require Import Proofs.ProveTopP Proofs.CompleteP Proofs.HonestTopP Proofs.TopP Proofs.BatchP Model.VerifyTop Model.Codec Model.Verifier.
+Local Close Scope N_scope.
+Theorem C06_prove_emits_iff_witness_valid : forall (K : Fld) (M : Mod K) bits cap T (g : gens K M) commitments promises values blindings wT nn ch,
+  (exists p, prove_top K M bits cap T g commitments promises values blindings wT nn ch = Some p) <->
+  witness_valid K M bits T (fofN K) g commitments promises values blindings wT = true.
+Proof. exact prove_top_some_iff. Qed.
+Print Assumptions C06_prove_emits_iff_witness_valid.
+
+(** ... and whenever it returns a proof, that proof verifies: presented with the statement's own commitments (first two
+    conjuncts: the member record the verifier sees carries exactly them and exactly the emitted proof), it passes every guard
+    of [verify_chunk] in both verifying modes and the final multiscalar product is the identity.  Hypotheses: what the
+    validating constructors guarantee (C17), the typing of u64, and the oracles (challenges as the transcript checks them,
+    nonces of the shape C13 gives them, no absorbed point is the identity — an error in the code too).  The verifier's
+    promise guard needs no hypothesis: a valid witness keeps every promise inside the bit length ([valid_promises_fit]). *)
+Theorem C06_emitted_proof_verifies : forall (K : Fld), FldOk K -> forall (M : Mod K), ModOk K M ->
+  forall (ofN : N -> K) (toN : K -> N), (forall x, ofN (toN x) = x) ->
+  forall (enc : M -> N) (dec : N -> M), (forall p, dec (enc p) = p) ->
+  forall (g : gens K M) bits cap (commitments : list M) (values : list N) (promises : list (option N)) (blindings : list (list K)) wT
+         (nn : nonces K) (ch : pchals K) seeded nonce mode (w : K) a p,
+  let m := length values in
+  let T := length (g_Gb g) in
+  prove_top K M bits cap T g commitments promises values blindings wT nn ch = Some p ->
+  1 <= bits <= 64 -> m = 2 ^ a -> m <= cap -> length (g_G g) = bits * cap -> length (g_Hv g) = bits * cap ->
+  1 <= T <= 6 -> (2 * N.of_nat bits * N.of_nat cap < 2 ^ 64)%N ->
+  length promises = m -> length blindings = m -> Forall (fun r => length r = wT) blindings ->
+  Forall (fun v => (v < 2 ^ 64)%N) values ->
+  m * bits = 2 ^ length (pc_es ch) -> length (pc_es ch) < 64 ->
+  pc_y ch <> f0 K -> fsub K (pc_y ch) (f1 K) <> f0 K -> pc_z ch <> f0 K -> pc_e ch <> f0 K -> Forall (fun e => e <> f0 K) (pc_es ch) ->
+  wf_nonces K T (length (pc_es ch)) nn ->
+  enc (g_H g) <> 0%N -> Forall (fun q => enc q <> 0%N) (g_Gb g) ->
+  enc (pp_A p) <> 0%N -> enc (pp_A1 p) <> 0%N -> enc (pp_B p) <> 0%N ->
+  Forall (fun q => enc q <> 0%N) (pp_L p) -> Forall (fun q => enc q <> 0%N) (pp_R p) ->
+  mode <> RecoverOnly ->
+  let mb := honest_member K M toN enc g bits cap values promises blindings nn ch seeded nonce in
+  mb_Venc K mb = map enc commitments /\
+  mb_proof K mb = mkProof (N.of_nat T) (map toN (pp_d1 p)) (enc (pp_A p)) (enc (pp_A1 p)) (enc (pp_B p)) (toN (pp_r1 p)) (toN (pp_s1 p))
+                          (map enc (pp_L p)) (map enc (pp_R p)) /\
+  exists sc,
+    verify_chunk K ofN mode [mb] [w] true = (Ok [mask_of K ofN mode mb], Some sc) /\
+    vadd M (msm (fst sc) (interleaveM K M (g_G g) (g_Hv g))) (msm (snd sc) (dyn_of K M (pts_of K M dec mb) ++ g_Gb g ++ [g_H g])) = v0 M.
+Proof. intros K Kok M Mok ofN toN OT enc dec DE. exact (emitted_proof_verifies K Kok M Mok ofN toN OT enc dec DE). Qed.
+Print Assumptions C06_emitted_proof_verifies.
